@@ -40,8 +40,8 @@ func (s outSpec) String() string {
 // variant: what may differ between the routes of one booted configuration
 // (the secrets block — windows, loadability — is shared).
 type variant struct {
-	Sel   string
-	Order []int
+	Sel   string `json:"sel"`
+	Order []int  `json:"order"`
 }
 
 // allVariants: selection {absent, newest_valid, oldest_valid} x every order of the secret_ref lines; selection-major.
